@@ -1,6 +1,7 @@
 #!/bin/bash
 # seed_sweep.sh [seeds...]: run every check's quick tier under several seeds (and thorough once) on the unchanged tree; prints only failures
 cd "$(dirname "$0")/.."
+[ -n "$VP_RUN_REPO" ] && export VERIF_REPO="$VP_RUN_REPO"     # vp run --with-repo: use the snapshot, leave /repo free
 [ -x ocaml/modelrun ] || ./setup.sh >/dev/null 2>&1
 ids=$(python3 -c "import json; print(' '.join(c['property_id'] for c in json.load(open('MANIFEST.json'))['checks']))")
 fail=0
